@@ -43,7 +43,7 @@ _DOMAIN: typing.Dict[str, typing.Any] = {}
 
 
 def domain() -> typing.Dict[str, typing.Any]:
-    """name -> class for the stated domain (+ a synthetic multiple-inheritance family, used for cold lookups only)."""
+    """name -> class for the stated domain (+ a synthetic multiple-inheritance family)."""
     if _DOMAIN:
         return _DOMAIN
     import nunavut
@@ -669,8 +669,6 @@ def _worker_init(base: str):
 
 
 def canonical_steps(name: str) -> typing.List[typing.List[str]]:
-    if family(name).startswith("synthetic"):  # outside the stated domain: nearest-class clause on a cold cache only
-        return [["lookup", name], ["fresh"], ["lookup", name]]
     anc = ancestors(name)[1:]
     steps = [["lookup", name]] + [["lookup", a] for a in anc] + [["lookup", name], ["fresh"]]
     steps += [["lookup", a] for a in reversed(anc)] + [["lookup", name]]
@@ -737,7 +735,9 @@ def run_exhaustive(ctx: core.Ctx, base: str) -> None:
 # ---- generated histories
 def hist_strategy():
     d = domain()
-    names = d["stated"]
+    # the synthetic multiple-inheritance family takes part in the histories as well: with several bases a walk passes through
+    # classes of unrelated branches, which is where a memo keyed too coarsely goes wrong
+    names = d["stated"] + d["syn"]
     desc = {n: [m for m in names if n in ancestors(m) and m != n] for n in names}
 
     @st.composite
@@ -1242,9 +1242,9 @@ def run(ctx: core.Ctx):
         "Distinct by hash of the whole case."
     )
     ctx.assumptions = [
-        "history independence is quantified over the PyDSDL classes and nunavut.Namespace, as stated; the synthetic "
-        "multiple-inheritance classes (which do not occur in PyDSDL) are used for the nearest-class clause only, with the "
-        "same canonical history",
+        "resolution and history independence are quantified over the PyDSDL classes, nunavut.Namespace and a synthetic "
+        "multiple-inheritance family below pydsdl.Any (two mirrored diamonds; the pinned suite itself resolves a diamond), "
+        "all with the same canonical history (class, every ancestor, class again, fresh generator, ancestors in reverse, class)",
         "a template is 'named after a class' when it is <ClassName>.j2 (TEMPLATE_SUFFIX) in a template directory; for a "
         "file of that name in a sub-folder both readings are accepted, but the resolved name must be loadable",
         "FIND_ALL with a farther user template and a nearer built-in one: file-system-first and union-nearest are both accepted",
